@@ -694,10 +694,19 @@ class BrokerMachine(object):
         for pid, p in self.pfs.items():
             port = b.portfolios[pid]
             pos = []
-            for asset, ps in port.pos_handler.positions.items():
-                vals = tuple(sorted((k, round(float(v), 7)) for k, v in vars(ps).items()
-                                    if isinstance(v, (int, float, np.floating, np.integer))))
-                pos.append((asset, vals))
+            # what every user can read of each position ...
+            for asset, row in b.get_portfolio_as_dict(pid).items():
+                pos.append((asset, tuple(sorted((k, round(float(v), 7)) for k, v in row.items()
+                                                if isinstance(v, (int, float, np.floating, np.integer))))))
+            # ... refined by the numeric fields of the position objects where the library keeps them where it
+            # does today (a finer key only costs time; a library that stores them elsewhere is not an error)
+            try:
+                for asset, ps in port.pos_handler.positions.items():
+                    vals = tuple(sorted((k, round(float(v), 7)) for k, v in vars(ps).items()
+                                        if isinstance(v, (int, float, np.floating, np.integer))))
+                    pos.append((asset, vals))
+            except Exception:  # noqa
+                pass
             parts.append((pid, p.clock, str(getattr(port, 'current_dt', '')), round(float(port.cash), 7), tuple(sorted(pos)),
                           tuple((a, q, oid if str(oid).startswith('rebalance-') else '') for a, q, oid in self.pending_impl(pid)),
                           str(p.cash), tuple(sorted((a, mp.qty, str(mp.last), mp.clock) for a, mp in p.pos.items())),
